@@ -672,6 +672,12 @@ pub fn eval_expr(e: &Expr, env: &Env) -> Result<Val, EvalError> {
       Expr::And(a, b) => Val::B(ev(a)?.boolean() && ev(b)?.boolean()),
       Expr::Or(a, b) => Val::B(ev(a)?.boolean() || ev(b)?.boolean()),
       Expr::Not(a) => Val::B(!ev(a)?.boolean()),
+      Expr::LetBlock(x, init, body) => {
+         let v = ev(init)?;
+         let mut inner = env.clone();
+         inner.push((x.clone(), v));
+         eval_expr(body, &inner)?
+      },
    })
 }
 
